@@ -47,19 +47,27 @@ Read(id, l) == /\ n < MaxEvents /\ views[id] # NoView
                /\ n' = n + 1
                /\ UNCHANGED <<doc, views, slot>>
 
-Next == (\E id \in ViewIds, v \in ViewSpace : Create(id, v)) \/ (\E id \in ViewIds, l \in Lists : Read(id, l))
+\* Configuration().read_from_parser(view) and write(): the builders read all three lists of the view
+Tabulate(id) == /\ n < MaxEvents /\ views[id] # NoView
+                /\ last' = [id |-> id, list |-> "table", v |-> views[id], result |-> DeleteMentioning(doc, EffectiveFilter(id))]
+                /\ n' = n + 1
+                /\ UNCHANGED <<doc, views, slot>>
+
+Next == \/ \E id \in ViewIds, v \in ViewSpace : Create(id, v)
+        \/ \E id \in ViewIds, l \in Lists : Read(id, l)
+        \/ \E id \in ViewIds : Tabulate(id)
 Spec == Init /\ [][Next]_vars
 
 -----------------------------------------------------------------------------
 (* properties *)
 \* a read of a view returns the file's list with the unwanted entries deleted - whatever else happened before
-ReadIsFilter == (last.id # 0) => last.result = DeleteMentioning(doc, last.v)[last.list]
+ReadIsFilter == (last.id # 0) => last.result = (IF last.list = "table" THEN DeleteMentioning(doc, last.v) ELSE DeleteMentioning(doc, last.v)[last.list])
 \* survivors are unchanged and keep their relative order
-SurvivorsInOrder == (last.id # 0) =>
+SurvivorsInOrder == (last.id # 0 /\ last.list # "table") =>
     \A a, b \in 1..Len(last.result) : a < b =>
         \E x, y \in 1..Len(doc[last.list]) : x < y /\ doc[last.list][x] = last.result[a] /\ doc[last.list][y] = last.result[b]
-EmptyInclude == (last.id # 0 /\ last.v = [mode |-> "include", S |-> {}]) => last.result = <<>>
-UnknownInert == (last.id # 0 /\ last.v.mode = "exclude" /\ last.v.S = {Unknown}) => last.result = doc[last.list]
+EmptyInclude == (last.id # 0 /\ last.list # "table" /\ last.v = [mode |-> "include", S |-> {}]) => last.result = <<>>
+UnknownInert == (last.id # 0 /\ last.list # "table" /\ last.v.mode = "exclude" /\ last.v.S = {Unknown}) => last.result = doc[last.list]
 
 -----------------------------------------------------------------------------
 (* cases for the replay: every (file, view) with the file after deletion *)
